@@ -94,7 +94,7 @@ Theorem C03_handler_refused : forall cfg c m tbl sc rq tr r,
   gate_alts cfg c m <> [] /\
   (forall l, In l (gate_alts cfg c m) -> exists ck, In ck l /\ refused_in tr ck = true) /\
   last_refusal tr = Some r /\
-  predicted (handle cfg c m tbl sc rq) = Some (mkObs (rf_status r) (auth_records tr) []).
+  predicted (handle cfg c m tbl sc rq) = Some (mkObs (rf_status r) (auth_records tr) [] None).
 Proof. exact handle_refused. Qed.
 
 (* the callback is never consulted behind the gate *)
